@@ -3,7 +3,9 @@
 package main
 
 import (
+	"encoding/binary"
 	"encoding/hex"
+	"hash/crc32"
 	"strings"
 
 	"wvh/hlib"
@@ -312,7 +314,7 @@ var specConcatRoot = unhexSpec(`72 c3 63 03 83 16 00 ff 00 00 00 00 00 00 00 fe 
 
 // directed returns the i'th directed construction (i taken modulo their number).
 func directed(rng *hlib.Rand, i int) hostile {
-	const N = 16
+	const N = 17
 	switch i % N {
 	case 0: // 32-byte root that lists itself as its only (branch) child
 		d := uint64(1 + rng.Intn(200))
@@ -469,6 +471,35 @@ func directed(rng *hlib.Rand, i int) hostile {
 		}
 		root := encodeNode([]elem{leaf(0, 1), branch(0, 96), leaf(5, 2), branch(0, 96), leaf(0, 3)}, 0, size, 1)
 		return hostile{data: cat(root, child), claimed: int64(size), kind: "directed-empty-branch", content: make([]byte, 5)}
+	case 15: // two chunks share one CSecondary (a wrapped dictionary); the second has a TTag that is
+		// not 0xFF and names an element with an empty CRange: invalid for RAC+Zlib, but accepted
+		// from the dictionary cache when the first chunk was loaded just before (C15-dict-cache-ttag)
+		ca, cb := genContent(rng, 1+rng.Intn(30)), genContent(rng, 1+rng.Intn(30))
+		a, b := zlibOf(ca), zlibOf(cb)
+		dict := genContent(rng, rng.Intn(40))
+		wrapped := make([]byte, 4, 8+len(dict))
+		binary.LittleEndian.PutUint32(wrapped, uint32(len(dict)))
+		wrapped = append(wrapped, dict...)
+		wrapped = binary.LittleEndian.AppendUint32(wrapped, crc32.ChecksumIEEE(dict))
+		offA := uint64(16*4 + 16)
+		offB := offA + uint64(len(a))
+		offD := offB + uint64(len(b))
+		size := offD + uint64(len(wrapped))
+		tt := byte(3)
+		if rng.Chance(1, 3) {
+			tt = 0xFF // the valid variant
+		}
+		root := encodeNode([]elem{
+			{dsize: uint64(len(ca)), ttag: 0xFF, stag: 2, cptr: offA},
+			{dsize: uint64(len(cb)), ttag: tt, stag: 2, cptr: offB},
+			{ttag: 0xFF, stag: 0xFF, cptr: offD},
+			{ttag: 0xFF, stag: 0xFF, cptr: size},
+		}, 1, size, 1)
+		h := hostile{data: cat(root, a, b, wrapped), claimed: int64(size), kind: "directed-dict-cache-ttag"}
+		if tt == 0xFF {
+			h.content = append(append([]byte{}, ca...), cb...)
+		}
+		return h
 	default: // child COffMax just above / at the parent's
 		size := uint64(48 + 32)
 		delta := uint64(rng.Intn(2))
